@@ -438,7 +438,14 @@ func (t *T) finish() int {
 		ev["assumptions"] = []string{}
 	}
 	if t.Replay == nil {
+		// evidence/ only ever describes runs against /repo itself: mutation trials against a
+		// scratch worktree (VERIF_REPO) write elsewhere.
 		dir := filepath.Join(t.Root, "evidence")
+		if d := os.Getenv("VERIF_EVIDENCE_DIR"); d != "" {
+			dir = d
+		} else if r := os.Getenv("VERIF_REPO"); r != "" && r != "/repo" {
+			dir = filepath.Join(t.Root, ".cache", "evidence-alt")
+		}
 		_ = os.MkdirAll(dir, 0o755)
 		b, err := json.MarshalIndent(ev, "", " ")
 		if err != nil {
